@@ -839,11 +839,106 @@ func c07DrainExist(r *rt.Rec) {
 	r.Eval(1)
 }
 
+// c07DropWhileInUse: goroutines keep adding, removing, testing and looking up
+// triples through a handle of a graph while another goroutine drops and
+// re-creates that graph. What the old handle then refers to is not part of the
+// property; that nothing panics, deadlocks or races is.
+func c07DropWhileInUse(r *rt.Rec, rng *rand.Rand, rounds int, memoized bool) {
+	ctx := context.Background()
+	label := fmt.Sprintf("drop-while-in-use memoized=%v seed=%d", memoized, rng.Int63())
+	r.Begin(label)
+	var st storage.Store = memory.NewStore()
+	if memoized {
+		st = memoization.New(st)
+	}
+	h, _ := st.NewGraph(ctx, "?d")
+	univ := gen.Universe(rng, 8)
+	h.AddTriples(ctx, univ[:4])
+	var mu sync.Mutex
+	report := func(where string, e interface{}) {
+		buf := make([]byte, 1<<14)
+		stk := string(buf[:runtime.Stack(buf, false)])
+		mu.Lock()
+		defer mu.Unlock()
+		r.Violation("panic/drop-while-in-use/"+where+"/"+rt.PanicClass(fmt.Sprint(e), stk), fmt.Sprintf("%s through a handle obtained before the graph was dropped panicked: %v", where, e), map[string]interface{}{"case": label, "stack": trim(stk, 2500)})
+	}
+	safely := func(where string, f func()) {
+		defer func() {
+			if e := recover(); e != nil {
+				report(where, e)
+			}
+		}()
+		f()
+	}
+	// first the plain sequence, then the concurrent one
+	safely("DeleteGraph", func() { st.DeleteGraph(ctx, "?d") })
+	use := func(g storage.Graph, k int) {
+		safely("AddTriples", func() { g.AddTriples(ctx, univ[k%8:k%8+1]) })
+		safely("Exist", func() { g.Exist(ctx, univ[(k+1)%8]) })
+		safely("RemoveTriples", func() { g.RemoveTriples(ctx, univ[(k+3)%8:(k+3)%8+1]) })
+		safely("Triples", func() {
+			c := make(chan *triple.Triple, 4)
+			go func() {
+				for range c {
+				}
+			}()
+			g.Triples(ctx, storage.DefaultLookup, c)
+		})
+		safely("Objects", func() {
+			c := make(chan *triple.Object, 4)
+			go func() {
+				for range c {
+				}
+			}()
+			g.Objects(ctx, univ[k%8].Subject(), univ[k%8].Predicate(), storage.DefaultLookup, c)
+		})
+	}
+	use(h, 0)
+	safely("NewGraph", func() { st.NewGraph(ctx, "?d") })
+	use(h, 1)
+	var wg sync.WaitGroup
+	stop := make(chan struct{})
+	for c := 0; c < 3; c++ {
+		wg.Add(1)
+		go func(c int) {
+			defer wg.Done()
+			g := h
+			for k := 0; ; k++ {
+				select {
+				case <-stop:
+					return
+				default:
+				}
+				use(g, k+c)
+				if k%5 == 4 {
+					// pick up whatever the name refers to now
+					safely("Graph", func() {
+						if ng, err := st.Graph(ctx, "?d"); err == nil {
+							g = ng
+						}
+					})
+				}
+			}
+		}(c)
+	}
+	for k := 0; k < rounds; k++ {
+		safely("DeleteGraph", func() { st.DeleteGraph(ctx, "?d") })
+		runtime.Gosched()
+		safely("NewGraph", func() { st.NewGraph(ctx, "?d") })
+		runtime.Gosched()
+	}
+	close(stop)
+	wg.Wait()
+	r.Eval(rounds)
+	r.Count("drops_while_in_use", rounds)
+	r.Nontrivial(label)
+}
+
 func init() {
 	register(&rt.Check{
 		ID:    "C07",
 		Level: "exploration",
-		Rule: "many short histories: 6-10 client goroutines x 4-6 operations on one graph over a 6-10 triple universe (AddTriples batches of 1-5, RemoveTriples batches of 1-3, Exist, the ten lookups and Triples with default options or option values shared by all callers: LatestAnchor, a window), GOMAXPROCS 2/4/16, yield hook in RemoveTriples (Gosched or 20-100us sleep) and AddTriples; store histories of NewGraph/Graph/DeleteGraph/GraphNames over three names; 2-6 goroutines running INSERT/DELETE/SELECT through the planner on one store; a consumer calling Exist while draining a lookup with a writer waiting; " +
+		Rule: "many short histories: 6-10 client goroutines x 4-6 operations on one graph over a 6-10 triple universe (AddTriples batches of 1-5, RemoveTriples batches of 1-3, Exist, the ten lookups and Triples with default options or option values shared by all callers: LatestAnchor, a window), GOMAXPROCS 2/4/16, yield hook in RemoveTriples (Gosched or 20-100us sleep) and AddTriples; store histories of NewGraph/Graph/DeleteGraph/GraphNames over three names; 2-6 goroutines running INSERT/DELETE/SELECT through the planner on one store; a consumer calling Exist while draining a lookup with a writer waiting; clients using a handle (all operations) while the graph is dropped and re-created under them (memory store and memoizer, plain and -race: no panic, deadlock or race); " +
 			"monitors: client-boundary invoke/response log checked by porcupine against a bitmask set model (RemoveTriples = k single removals sharing the interval, AddTriples atomic), race detector, channel observed closed, shared options compared with their snapshot (during streaming and after return), watchdog/all-blocked; non-trivial = linearizable history with >=1 overlapping pair of operations; distinct by operations + observed result vector",
 		Assume: []string{"schedules are sampled (stress, GOMAXPROCS variation, yield hooks), not enumerated", "a porcupine timeout (30 s) is inconclusive"},
 		Floor:  50,
@@ -867,6 +962,8 @@ func init() {
 				{Name: "graph-histories-race", N: 16, Race: true, Run: func(i int, r *rt.Rec) { c07GraphHistories(r, gen.Rng(seed, "c07gr", i), rg/16, i%2 == 1) }},
 				{Name: "store-histories-race", N: 8, Race: true, Run: func(i int, r *rt.Rec) { c07StoreHistories(r, gen.Rng(seed, "c07sr", i), sh/32+1) }},
 				{Name: "bql-race", N: 16, Race: true, Run: func(i int, r *rt.Rec) { c07BQL(r, gen.Rng(seed, "c07b", i), bqlr/16) }},
+				{Name: "drop-while-in-use", N: 4, Run: func(i int, r *rt.Rec) { c07DropWhileInUse(r, gen.Rng(seed, "c07d", i), 200, i%2 == 1) }},
+				{Name: "drop-while-in-use-race", N: 2, Race: true, Run: func(i int, r *rt.Rec) { c07DropWhileInUse(r, gen.Rng(seed, "c07dr", i), 100, i%2 == 1) }},
 				{Name: "drain-exist", N: 1, Run: func(i int, r *rt.Rec) { c07DrainExist(r) }},
 			}
 		},
